@@ -248,31 +248,43 @@ def replay_arith(case, cex):
 
 
 def stamp_texts(ctx, case):
-    """the TEXT of the time stamp as libwayland prints it (padding, both decimal marks, small and large values) through the real decoder:
-    shown time = (this - first) within 1e-9 s"""
-    import logging
+    """the TEXT of the time stamp as libwayland prints it (padding, both decimal marks, small and large values) through the real decoder AND
+    the real line loop (into_sink): shown time = (this - first) within 1e-9 s, whether times increase or not (the stamps of several processes
+    writing to one log are not ordered)"""
+    import logging, io
     logging.disable(logging.CRITICAL)
     from backends.libwayland_debug_output import parse
     from core import wl
+    from core.output import Output
+    from lib.stubs import RecStream
     us = [0, 1, 999, 1000, 12345, 99999, 100000, 100001, 999999, 1000000, 1000001, 123456789, 4294967295]
     first = ctx.choose(us, 'first')
-    this = ctx.choose([u for u in us if u >= first], 'this')
+    this = ctx.choose(us, 'this')
+    third = ctx.choose([0, 1000001, 4294967295], 'third')
     mark = ctx.choose(['.', ','], 'mark')
     style = ctx.choose(['%d.%03d', '%7d.%03d', '%6d.%03d'], 'padding')
     def line(u):
         return ('[' + style % (u // 1000, u % 1000) + '] wl_display@1.sync()').replace('.', mark, 1)
     wl.Message.base_time = None
-    _, m0 = parse.message(line(first))
-    _, m1 = parse.message(line(this))
-    ctx.check('first message is shown at 0', m0.timestamp == 0)
-    ctx.check('shown time of `%s` after `%s` is (this - first) seconds' % (line(this)[:16], line(first)[:16]), abs(m1.timestamp - (this - first) / 1e6) <= 1e-9)
+    got = []
+
+    class Sink:
+        def open_connection(self, time, cid, is_server): pass
+        def close_connection(self, time, cid): pass
+        def message(self, cid, m): got.append(m)
+    parse.into_sink(io.StringIO(''.join(line(u) + chr(10) for u in (first, this, third))), Output(False, True, RecStream(), RecStream()), Sink())
+    ctx.check('three lines, three messages', len(got) == 3)
+    if len(got) == 3:
+        ctx.check('first message is shown at 0', got[0].timestamp == 0)
+        ctx.check('shown time of `%s` after `%s` is (this - first) seconds' % (line(this)[:16], line(first)[:16]), abs(got[1].timestamp - (this - first) / 1e6) <= 1e-9)
+        ctx.check('shown time of the third line `%s` is (third - first) seconds' % line(third)[:16], abs(got[2].timestamp - (third - first) / 1e6) <= 1e-9)
 
 
 def last_shown(ctx, case):
     """separators appear exactly between consecutively SHOWN messages more than a second apart"""
     gaps, listing_at = case
     from core import matcher
-    w = ctl.make_world(ctx, 1, display=matcher.never)
+    w = ctl.make_world(ctx, 2, display=matcher.never)
     try:
         F = ctl.SymLeaf(ctx, 'filter')
         w.ctl.display_matcher = F
@@ -286,7 +298,8 @@ def last_shown(ctx, case):
                 k0 = len(w.out.items)
                 w.ctl.show_messages(None, L, None)
                 events.append(('list', L, list(w.out.items[k0:])))
-            m = ctl.add_message(w, 0, t=t)
+            # the lines of two connections may be interleaved in any way, and a target may be an object created before the log began
+            m = ctl.add_message(w, 0 if i == 0 else ctx.choose([0, 1], 'conn%d' % i), t=t, target_id=1 if i != 1 else ctx.choose([1, 9], 'target%d' % i))
             events.append(('live', m))
         items = w.out.items[n0:]
         # walk the output: sequence of ('sep', gap text) / ('msg', tag)
@@ -357,8 +370,8 @@ def obligations(tier):
            stubs=['float() re-bound in a copy of parse.message to the symbolic conversion', 'WlPatterns replaced by a fake whose timestamp group denotes A/1000 exactly'],
            outside='gaps of exactly 1.000000 s +- 1 us; str.format'),
         Ob('stamp-texts', 'symx', 'time stamp texts as libwayland prints them (space padding, `.` or `,`, values from 0.000 to the top of the counter) through the real decoder', FUNCS[:2],
-           '13 boundary values x 13 x 2 decimal marks x 3 paddings (exhaustive pool)', stamp_texts, cases=[None]),
+           '13 boundary values x 13 (in either order) x 3 third values x 2 decimal marks x 3 paddings (exhaustive pool), through into_sink', stamp_texts, cases=[None]),
         Ob('shown-gap-state-machine', 'symx', 'the gap is between consecutively shown messages: live view with symbolic filter verdicts, optional listing in between', FUNCS[2:],
-           '<= %d live messages, gaps from %r, optional listing at any position, verdicts symbolic' % (n, pool), last_shown, cases=cases, stubs=['abstract leaves', 'Message.show stubbed']),
+           '<= %d live messages on two connections interleaved in any way, gaps from %r, optional listing at any position, verdicts symbolic' % (n, pool), last_shown, cases=cases, stubs=['abstract leaves', 'Message.show stubbed']),
         Ob('shown-gap-state-machine-reachable', 'symx', 'reachability twin', FUNCS[2:], '', twin, cases=[((0.75, 1.5), 1)], expect_cex=True),
     ]
